@@ -254,6 +254,24 @@ off64_t _GD_Bzip2Seek(struct gd_raw_file_* file, off64_t offset,
       remaining -= n;
     }
   } else {
+    if (offset < ptr->base) {
+      /* a backwards seek to before the current window -- the stream cannot go
+       * back, so start decompressing again from the beginning */
+      ptr->bzerror = 0;
+      BZ2_bzReadClose(&ptr->bzerror, ptr->bzfile);
+      rewind(ptr->stream);
+      ptr->bzerror = 0;
+      ptr->bzfile = BZ2_bzReadOpen(&ptr->bzerror, ptr->stream, 0, 0, NULL, 0);
+      if (ptr->bzerror != BZ_OK) {
+        file->error = ptr->bzerror;
+        dreturn("%i", -1);
+        return -1;
+      }
+      ptr->pos = ptr->end = 0;
+      ptr->base = 0;
+      ptr->stream_end = 0;
+    }
+
     /* seek forward the slow way */
     while (ptr->base + ptr->end < offset) {
       int n;
